@@ -146,6 +146,7 @@ TYPED_CASES = [
     ("i instance of element(*, price)", [('bool', 'False')]), ("i instance of element(*, xs:untyped)", [('bool', 'False')]), ("n instance of element(*, xs:int?)", [('bool', 'True')]),
     ("n instance of element(*, xs:int)", [('bool', 'False')]), ("i instance of element(i, xs:int)", [('bool', 'True')]), ("i instance of element(s, xs:int)", [('bool', 'False')]),
     ("concat(i, '|', b)", [('str', '42|true')]), ("i || f", [('str', '42100')]), ("string-join((i, l), '-')", [('str', '42-1-2-3')]),
+    ("sort((i, s, @a)) ! name()", [('str', 's'), ('str', 'a'), ('str', 'i')]),
     ("distinct-values((i, s, @a))", [('Int', '42'), ('Int', '7')]), ("data(p/@cur) instance of xs:NMTOKEN", [('bool', 'True')]),
 ]
 
